@@ -100,7 +100,7 @@ def run(pid, tier):
         negm = model_small(work, model)
         path, nw = walks(work, tier, model)
         nrand = 400 if tier == "quick" else 20000
-        tiers = ["pinned"] if tier == "quick" else ["pinned", "debug"]
+        tiers = (["pinned"] if tier == "quick" else ["pinned", "debug"]) + vlib.isa_tier(LIB)
         traces, cmds = [], []
         for t in tiers:
             drv = vlib.build_driver("drv_bitmap", t, LIB, **BUILD)
